@@ -1,6 +1,7 @@
 package util
 
 import (
+	"io"
 	"os"
 	"path/filepath"
 	"sort"
@@ -74,15 +75,49 @@ func UnlinkFileAt(dir *os.File, filename string) error {
 }
 
 // WriteFileAt writes to a new file in given directory
+//
+// The data is written to a temporary name and renamed only after everything has been written, so a file of the given
+// name is always complete. On failure nothing is left under the given name.
 func WriteFileAt(dir *os.File, filename string, data []byte, perm os.FileMode) error {
-	fd, oerr := unix.Openat(int(dir.Fd()), filename, unix.O_WRONLY|unix.O_CREAT|unix.O_TRUNC, uint32(perm))
+	dirfd := int(dir.Fd())
+	tmpname := filename + tempFileSuffix
+	fd, oerr := unix.Openat(dirfd, tmpname, unix.O_WRONLY|unix.O_CREAT|unix.O_TRUNC, uint32(perm))
 	if oerr != nil {
 		return oerr
 	}
 	vhook.At("files.write.afterOpen")
-	_, werr := unix.Write(fd, data)
+	werr := writeAll(fd, data)
 	vhook.At("files.write.afterWrite")
-	unix.Close(fd)
+	if cerr := unix.Close(fd); werr == nil {
+		werr = cerr
+	}
 	vhook.At("files.write.afterClose")
+	if werr == nil {
+		werr = unix.Renameat(dirfd, tmpname, dirfd, filename)
+	}
+	if werr != nil {
+		_ = unix.Unlinkat(dirfd, tmpname, 0)
+	}
 	return werr
+}
+
+// tempFileSuffix is appended to the names of files being written by WriteFileAt
+const tempFileSuffix = ".tmp"
+
+// writeAll writes all the data or returns an error; a single write may be short, e.g. when a size limit is reached
+func writeAll(fd int, data []byte) error {
+	for len(data) > 0 {
+		n, err := unix.Write(fd, data)
+		if err != nil {
+			if err == unix.EINTR {
+				continue
+			}
+			return err
+		}
+		if n <= 0 {
+			return io.ErrShortWrite
+		}
+		data = data[n:]
+	}
+	return nil
 }
